@@ -74,8 +74,11 @@ def run(out, tier, seed):
         for job in ("j1", "j2"):
             if (job, ds) not in results:
                 s.inbox.append(orjson.dumps({"clazz": "ResultRetrievalRequest", "job_id": job, "dataset_id": {"task": "t", "output": "0"}}))
-                server.handle_fe(s, r)
-                resp = orjson.loads(s.out[-1])
+                try:
+                    server.handle_fe(s, r)
+                    resp = orjson.loads(s.out[-1])
+                except Exception as e:  # noqa - "gets an error response and the gateway keeps serving": an exception escaping handle_fe stops serve()
+                    resp = {"escaped": repr(e)}
                 if not resp.get("error"):
                     failures.append({"obligation": "C18/history/unknown-dataset-error", "inputs": [list(map(str, h)) for h in hist], "observed": repr(resp), "class": "history"})
         if len(failures) > 5:
@@ -85,9 +88,14 @@ def run(out, tier, seed):
     r = router.JobRouter(mock.MagicMock())
     s = Sock()
     s.inbox.append(orjson.dumps({"clazz": "JobProgressRequest", "job_ids": ["nope"]}))
-    server.handle_fe(s, r)
+    try:
+        server.handle_fe(s, r)
+        answer = s.out[-1].decode()
+        bad = not orjson.loads(s.out[-1]).get("error")
+    except Exception as e:  # noqa - an exception escaping handle_fe stops serve(): the gateway no longer serves the other jobs
+        answer, bad = f"handle_fe raised {e!r}", True
     cases += 1
-    if not orjson.loads(s.out[-1]).get("error"):
-        failures.append({"obligation": "C18/unknown-job-error", "inputs": "progress of unknown job", "observed": s.out[-1].decode(), "class": "history"})
+    if bad:
+        failures.append({"obligation": "C18/unknown-job-error", "inputs": "progress of unknown job", "observed": answer, "class": "history"})
     out.add_bounded("gateway report histories", "exhaustive enumeration", f"all sequences of {n} reports over an alphabet of {len(alphabet)} (2 jobs, 3 timestamps, result, shutdown) through the real handle_controller/handle_fe",
                     cases, nontrivial, time.time() - t0, samples, failures)
